@@ -192,7 +192,7 @@ Record espec := { e_id : N;
                   e_params : list pspec;
                   e_shape : shape;
                   e_legacy : list N;            (* deprecated entry points that are its counterpart *)
-                  e_pre : form;                 (* precondition of the internal symbol on in-domain arguments *)
+                  e_pre : form;                 (* in-domain arguments for which the internal symbol has work to do *)
                   e_samekey : form }.           (* XTS: "the two keys are identical"; FFalse elsewhere *)
 
 (* ------------------------------------------------------------------ trace predicates *)
@@ -250,9 +250,10 @@ Definition refused_ok (e : espec) (r : option sval) (tr : list event) (mays : li
   | None => false
   end.
 Definition accepted_ok (e : espec) (pre : bool) (r : option sval) (tr : list event) : bool :=
-  if pre then shape_ok (e_shape e) r tr
-  else (* in the documented domain, but the internal symbol cannot take it: succeed without it *)
-    quiet tr && match ret_const r with Some 0 => true | _ => false end.
+  shape_ok (e_shape e) r tr ||
+  (* in the documented domain, but there is nothing for the internal symbol to do (a zero
+     length): succeeding without reaching it is as good as reaching it *)
+  (negb pre && quiet tr && match ret_const r with Some 0 => true | _ => false end).
 Definition g16 (e : espec) (res : dtree) (bs0 : list bool) : bool :=
   match res, bs0 with
   | Leaf r tr, pre :: bs =>
@@ -376,9 +377,9 @@ Section C13.
   Definition f_aes_ok : form := a_eq (KExt id_aes 0) 0.
   Definition f_sha_ok : form := a_eq (KExt id_sha 0) 0.
 
-  (* formulas: [passed; failed; aes ok; sha ok; same key] ++ offending parameters *)
+  (* formulas: [passed; failed; aes ok; sha ok; same key; kernel precondition] ++ offending parameters *)
   Definition forms13 (e : espec) : list form :=
-    [f_passed; f_failed; f_aes_ok; f_sha_ok; e_samekey e] ++ map p_may (e_params e).
+    [f_passed; f_failed; f_aes_ok; f_sha_ok; e_samekey e; e_pre e] ++ map p_may (e_params e).
 
   Definition ret_is (r : option sval) (c : N) : bool :=
     match ret_const r with Some x => x =? c | None => false end.
@@ -386,15 +387,17 @@ Section C13.
   Definition refused (r : option sval) (tr : list event) : bool :=
     ret_is r ERR_XTS_SAME_KEYS && no_call tr.
   (* the call went through: the status was consulted (and whatever `ran` demands happened)
-     before one internal call with the arguments passed through *)
-  Definition went_through (e : espec) (ran : bool) (r : option sval) (tr : list event) : bool :=
-    calls B_CHECK (before_work tr) && ran && shape_ok (e_shape e) r (core tr).
+     before one internal call with the arguments passed through — or, when the internal symbol
+     cannot take the in-domain arguments (C16), 0 without any work *)
+  Definition went_through (e : espec) (pre ran : bool) (r : option sval) (tr : list event) : bool :=
+    calls B_CHECK (before_work tr) && ran &&
+    (shape_ok (e_shape e) r (core tr) || (negb pre && ret_is r 0 && no_work tr)).
 
   (* C13 quantifies over otherwise-valid arguments: worlds with an offending parameter are
      outside (C16 covers them on the default build) *)
   Definition g13_approved (e : espec) (res : dtree) (bs : list bool) : bool :=
     match res, bs with
-    | Leaf r tr, passed :: failed :: aes_ok :: sha_ok :: same :: offs =>
+    | Leaf r tr, passed :: failed :: aes_ok :: sha_ok :: same :: pre :: offs =>
         if any_true offs then true
         else if refused r tr then true
         else if same then
@@ -403,10 +406,10 @@ Section C13.
         else if failed then
           (* self-tests failed: the self-test error, nothing written, no crypto symbol reached *)
           ret_is r ERR_SELF_TEST && no_work tr
-        else if passed then went_through e true r tr
+        else if passed then went_through e pre true r tr
         else if aes_ok && sha_ok then
           (* not run yet, and they pass now: both ran before the first piece of work *)
-          went_through e (calls id_aes (before_work tr) && calls id_sha (before_work tr)) r tr
+          went_through e pre (calls id_aes (before_work tr) && calls id_sha (before_work tr)) r tr
         else
           (* not run yet, and one of them fails now: blocked *)
           ret_is r ERR_SELF_TEST && no_work tr
